@@ -249,7 +249,7 @@ def main(argv=None):
                   "negative statements hold in the generic-group sense (T9); attribute values congruent to 0 modulo r count as unset"]
     chk.trusted = ["group layer specification (C01, C05-C08)", "C11: keys reachable by delegation are well-formed", "z3"]
     # lower layers whose specifications this check relies on: their obligations are part of this check's claim (framework.Check.include)
-    for dep in ['C06', 'C02', 'C04', 'C05', 'C07', 'C01', 'C08', 'C10', 'C19']:
+    for dep in ['C06', 'C02', 'C03', 'C04', 'C05', 'C07', 'C01', 'C08', 'C10', 'C19']:
         chk.include(dep)
     chk.run()
     chk.finish()
